@@ -192,7 +192,7 @@ def sibling_rules(ctx, facts, rid):
             env = [selfv, ("sym", "pos"), ("sym", "all"), ("sym", "mask")]
             tree = fb.tree(inst, env=env)
             terms, probs = bool_query_terms(tree)
-            want = expected_terms(c, "('sym', 'pos')", "('sym', 'all')", mask="('sym', 'mask')")
+            want = expected_terms(c, show(("sym", "pos")), show(("sym", "all")), mask=show(("sym", "mask")))
             key = "Checker::is_attacked[%s]/inv=%s" % ("Default" if "Default" in inst.id else "Nil", "WB"[c])
             r.check(terms == want and not probs, key,
                     "%s is not the reference attack test under (occupancy, mask): terms %s expected %s; %s"
